@@ -3,7 +3,8 @@
    (+ trimStartLetterSpacing, RecomputeAdvance), breakOption.isValid, breaker (nextWordRaw,
    nextGraphemeRaw, nextWordBreak, nextGraphemeBreak, mark*Unused) over the segmenter's break
    attributes, runMapper.mapRun, shapedRunSlice (Peek/Next/Save/Restore), wrapBuffer (candidate*,
-   markCandidateBest, hasBest), fillUntil, processBreakOption, wrapNextLine, computeBidiOrdering,
+   markCandidateBest, hasBest), fillUntil, processBreakOption, wrapNextLine (with the end of its grapheme loop,
+   word_fallback, and discardWordOption, discard_word), computeBidiOrdering,
    postProcessLine, WrapNextLine, Prepare, WrapParagraph (with the single-run fast path),
    Output.advanceSpaceAware.
    Go slices of glyphs are (source array index, lo, len) into the store, so that the in-place edits
@@ -215,6 +216,9 @@ Definition next_word_break (b : breaker) : breaker * option bopt :=
          Some o)
     end.
 
+(* discardWordOption: unusedWordBreak := previousWordBreak *)
+Definition discard_word (b : breaker) : breaker :=
+  mkBreaker (b_attrs b) (b_n b) (b_wpos b) (b_gpos b) (b_prevW b) (b_prevW b) (b_isUnusedW b) (b_unusedG b) (b_isUnusedG b).
 Definition mark_word_unused (b : breaker) : breaker :=
   mkBreaker (b_attrs b) (b_n b) (b_wpos b) (b_gpos b) (b_unusedW b) (b_prevW b) true (b_unusedG b) (b_isUnusedG b).
 Definition set_unusedG (b : breaker) (o : bopt) (flag : bool) : breaker :=
@@ -319,7 +323,7 @@ Fixpoint fill_until (fuel : nat) (w : W) (b : Z) : res W :=
                       do w1 <- map_run w ci run;
                       do sr <- cut_run (w_st w1) run (mapping_of (w_mp w1)) (w_start w1) (o_cnt run + o_off run) (alt_empty w1);
                       Ok (set_st w1 (fst sr), snd sr)
-                    else Ok (w, run));
+                    else Ok (w, recompute_advance (w_st w) run));     (* placed whole: Advance taken from the glyphs *)
           fill_until f (iter_advance (cand_append (fst wr) (snd wr))) b
       else Ok w
   end.
@@ -354,7 +358,22 @@ Definition process_break_option (w : W) (opt : bopt) (lc : line_cfg) : res (W * 
 
 Definition br_fuel (w : W) : nat := S (S (length (b_attrs (w_br w)))).
 
-Fixpoint inner_loop (fuel : nat) (w : W) (lc : line_cfg) : res (W * bool) :=
+(* the end of the grapheme loop of wrapNextLine (reached by its break, when nextGraphemeBreak has no more option up to
+   the UAX #14 option wopt): outside the truncating line, when no line was recorded the UAX #14 option is processed
+   again from the checkpoint and used although it does not fit *)
+Definition word_fallback (w : W) (wopt : bopt) (lc : line_cfg) : res (W * bool) :=
+  if negb (lc_truncating lc) && negb (has_best w) then
+    let w := restore w in
+    do r <- process_break_option w wopt lc;
+    let '(w, result, cand) := r in
+    match result with
+    | BreakInvalid => Ok (restore w, false)
+    | _ => Ok (mark_best w [cand], false)
+    end
+  else Ok (w, false).
+
+(* the grapheme loop; wopt is the UAX #14 option of the enclosing iteration *)
+Fixpoint inner_loop (fuel : nat) (w : W) (wopt : bopt) (lc : line_cfg) : res (W * bool) :=
   match fuel with
   | O => OutOfFuel
   | S f =>
@@ -362,13 +381,13 @@ Fixpoint inner_loop (fuel : nat) (w : W) (lc : line_cfg) : res (W * bool) :=
       do br <- next_grapheme_break (br_fuel w) (w_br w);
       let w := set_br w (fst br) in
       match snd br with
-      | None => Ok (w, false)
+      | None => word_fallback w wopt lc
       | Some opt =>
           do r <- process_break_option w opt lc;
           let '(w, result, cand) := r in
           match result with
-          | BreakInvalid => inner_loop f (restore w) lc
-          | Fits => inner_loop f (set_br (mark_best w [cand]) (mark_word_unused (w_br w))) lc
+          | BreakInvalid => inner_loop f (restore w) wopt lc
+          | Fits => inner_loop f (set_br (mark_best w [cand]) (mark_word_unused (w_br w))) wopt lc
           | EndLine => Ok (mark_best w [cand], true)
           | Truncated => Ok ((if has_best w then w else mark_best (restore w) []), true)
           | NewLineBeforeBreak =>
@@ -396,9 +415,9 @@ Fixpoint outer_loop (fuel : nat) (w : W) (lc : line_cfg) : res (W * bool) :=
       | Some opt =>
           do r <- process_break_option w opt lc;
           let '(w, result, cand) := r in
-          let graphemes (w : W) := inner_loop (br_fuel w) (restore w) lc in
+          let graphemes (w : W) := inner_loop (br_fuel w) (restore w) opt lc in
           match result with
-          | BreakInvalid => outer_loop f (restore w) lc
+          | BreakInvalid => let w := restore w in outer_loop f (set_br w (discard_word (w_br w))) lc
           | Fits =>
               let w := mark_best w [cand] in
               if snd opt then Ok (w, false) else outer_loop f w lc
@@ -545,7 +564,8 @@ Definition wrap_paragraph (w : W) (cfg : wcfg) (maxWidth : Z) (attrs : list Z) (
     if negb (c_cont cfg && (c_trunc cfg =? 1)) then
       if negb (has_mandatory (S (length attrs)) (new_breaker attrs)) then
         match runs with
-        | [first] => if ceil26 (o_adv first) <=? maxWidth then Some first else None
+        | [first] => let first := recompute_advance (w_st w) first in
+                     if ceil26 (o_adv first) <=? maxWidth then Some first else None
         | _ => None
         end
       else None
